@@ -62,8 +62,9 @@ def cases(tier, seed):
         n = int(rs.randint(4, nmax + 1))
         conn.append(['named', 'er_connected', n, float(rs.choice([.05, .2, .5])), int(rs.randint(1 << 30))])
     for i, g in enumerate(conn):
-        for w in ('bin', 'real'):
-            out.append({'kind': 'walk', 'g': ['perm', g, seed + i] if i % 2 else g, 'directed': False, 'w': w, 'ws': i})
+        for w in ('bin', 'real', 'logu'):
+            out.append({'kind': 'walk', 'g': ['perm', g, seed + i] if i % 2 else g, 'directed': False, 'w': w, 'ws': i,
+                        'scale': 1e-10 if (i % 3 == 0 and w == 'real') else 1.0})
     strong = [['named', 'dcycle', 4], ['named', 'dcycle', 6], ['named', 'dcycle', 5], ['named', 'dcycle_chords', 6, 2, seed],
               ['named', 'two_blobs_dir', 3, seed], ['named', 'dcycle_chords', 8, 8, seed]]
     for t in range(60 if thorough else 15):
@@ -133,7 +134,9 @@ def run_spectral(case, bct, REC):
 def run_walk(case, bct, REC):
     A = G.build(case['g'])
     directed = case['directed']
-    W = G.weigh(A, case['w'], case['ws'], symmetric=not directed)
+    W = G.weigh(A, case['w'], case['ws'], symmetric=not directed) * case.get('scale', 1.0)
+    if case['w'] == 'logu':
+        W = np.maximum(W, 1e-6 * (A != 0))   # keep the chain numerically irreducible (conditioning, not magnitude, is the point)
     n = len(W)
     if not (O.is_strongly_connected(W) if directed else O.is_connected(W)):
         return
